@@ -53,7 +53,7 @@ func c09MakeTarget(rt *refmodel.C09Router, g *oc.Global, p *refmodel.C09Peer) (*
 func c09Export(t *c09Target, stored *Path) *Path {
 	p := stored
 	if !p.IsWithdraw && t.n.AsPathOptions.State.ReplacePeerAs {
-		p = p.ReplaceAS(t.n.Config.LocalAs, t.n.Config.PeerAs)
+		p = p.ReplaceAS(t.n.Config.LocalAs, t.n.State.PeerAs) // the peer's AS (State: also known when peer-as is not configured)
 	}
 	return UpdatePathAttrs(verifLogger(), t.g, t.info, p)
 }
@@ -255,6 +255,12 @@ func TestVerifC09(t *testing.T) {
 			rec.Count("pair:"+pair, 1)
 			rec.Count("opt:"+dst.spec.Options(), 1)
 			rec.Count("stored:"+c.form, 1)
+			if dst.spec.Negotiated {
+				rec.Count("peer-as-unset:target:"+dk.String(), 1)
+			}
+			if c.src != nil && c.src.Negotiated {
+				rec.Count("peer-as-unset:source:"+sk.String(), 1)
+			}
 			var out *Path
 			if rec.Guard("c09:table:export", func() any { return c.witness(idx, dst) }, func() { out = c09Export(dst, c.stored) }) {
 				return
